@@ -239,7 +239,7 @@ def zstate_of(conn):
         put('closed', lambda: [[absn.i32(sid), by(v)] for sid, v in conn._closed_streams.items()])
         put('ls', lambda: settings(conn.local_settings))
         put('rs', lambda: settings(conn.remote_settings))
-        put('hdrCap', lambda: conn.decoder.max_header_list_size)
+        put('hdrCap', lambda: absn.i32(conn.decoder.max_header_list_size))
         put('hp', lambda: [absn.i32(conn.encoder.header_table_size), bool(conn.encoder.header_table.resized),
                            [absn.i32(v) for v in conn.encoder.table_size_changes], absn.i32(conn.decoder.header_table_size),
                            absn.i32(conn.decoder.max_allowed_table_size)])
